@@ -17,6 +17,17 @@ func runConc(e *emitter, c []int64) {
 	}
 	threads, reps := int(c[0]), int(c[1])
 	inner := c[2:]
+	// the reference result: the same job run once, alone, and (for battles) without
+	// the caller scribbling over its warrior data after AddWarrior
+	alone := append([]int64{}, inner...)
+	if len(alone) > 6 && alone[0] == 1 {
+		alone[6] &^= 128
+	}
+	var bbuf bytes.Buffer
+	bw := bufio.NewWriter(&bbuf)
+	runCase(&emitter{w: bw, first: true}, alone)
+	bw.Flush()
+	baseline := stripVolatile(bbuf.String())
 	results := make([]string, reps)
 	var wg sync.WaitGroup
 	sem := make(chan struct{}, threads)
@@ -40,6 +51,13 @@ func runConc(e *emitter, c []int64) {
 		distinct[r] = true
 	}
 	e.rec(93, int64(len(distinct)))
+	same := int64(1)
+	for _, r := range results {
+		if r != baseline {
+			same = 0
+		}
+	}
+	e.rec(94, same)
 	// re-emit the first result
 	for _, part := range strings.Split(results[0], " | ") {
 		part = strings.TrimSpace(part)
